@@ -966,6 +966,79 @@ void c03Run(Ctx& c, long idx)
     c03Random(c, idx);
 }
 
+// C03 outside main(): typed payloads whose inner lengths contradict the payload (and consistent ones) are decoded during
+// static initialisation, inside main() and after main() has returned; every packet that comes back valid is held to the
+// view oracle each time, and the three answers must agree.
+std::vector<std::string> c03FixedSet()
+{
+    std::vector<std::string> out;
+    Rng r(0x03C0FFEEULL);
+    static const uint8_t pts[] = {wire::PT_CAN, wire::PT_CANFD, wire::PT_LIN, wire::PT_ETHERNET, wire::PT_ANALOG, wire::PT_CM_STATUS, wire::PT_IF_STATUS};
+    for (int i = 0; i < 140; ++i)
+    {
+        int cls = i % CL_COUNT;
+        Bytes b = (i / CL_COUNT) % 2 ? genInconsistentPayload(clsKind(cls), r) : genPayload(clsKind(cls), kindMinLen(clsKind(cls)) + r.below(30), r);
+        if (b.empty())
+            b.push_back(0);
+        GMsg m;
+        m.ts = 1;
+        m.idWord = 2;
+        m.ptype = pts[cls];
+        m.payload = b;
+        Bytes f = buildFrame(1, 1, (cls == CL_CM || cls == CL_IF) ? wire::MT_STATUS : wire::MT_DATA, 0, 1, {m});
+        Decoder dec;
+        auto got = dec.decode(f.data(), f.size());
+        std::string line = std::string(clsName(cls)) + " payload=" + hex(b, 80) + " ->";
+        for (auto& p : got)
+        {
+            if (!p)
+                continue;
+            line += p->isValid() ? " valid" : " invalid";
+            if (p->isValid())
+            {
+                AccessResult a;
+                accessTyped(a, p->getPayload());
+                line += a.badView.empty() ? " views-inside" : " VIEW-OUTSIDE(" + a.detail + ")";
+            }
+        }
+        out.push_back(line);
+    }
+    return out;
+}
+std::string c03Judge(const std::vector<std::string>& then, const std::vector<std::string>& now)
+{
+    for (size_t i = 0; i < now.size(); ++i)
+    {
+        if (now[i].find("VIEW-OUTSIDE") != std::string::npos)
+            return "view outside the payload of a packet returned valid: " + now[i];
+        if (i < then.size() && then[i] != now[i])
+            return "then: " + then[i] + " now: " + now[i];
+    }
+    return "";
+}
+void c03AfterMain();
+// (never destroyed: the atexit handler still reads it)
+const std::vector<std::string>& gC03BeforeMain = *new std::vector<std::string>((lateReport(), atexit(c03AfterMain), c03FixedSet()));
+void c03AfterMain()
+{
+    if (lateReport().prop != "C03" || lateReport().shard != 0)
+        return;
+    std::string d = c03Judge(gC03BeforeMain, c03FixedSet());
+    if (!d.empty())
+        lateViolation("C03:view-outside-payload-or-other-verdict-after-main-returned", d);
+}
+void c03OutsideMainCase(Ctx& c)
+{
+    auto now = c03FixedSet();
+    std::string d = c03Judge(gC03BeforeMain, now);
+    if (d.empty())
+        d = c03Judge(now, gC03BeforeMain);
+    ++c.evaluations;
+    c.count("payloads_also_decoded_before_and_after_main", now.size());
+    if (!d.empty())
+        c.violation("C03:view-outside-payload-or-other-verdict-before-main", d, "fixed set of 140 typed payloads");
+}
+
 long countCases(Ctx& c)
 {
     if (c.prop == "C02")
@@ -976,6 +1049,8 @@ long countCases(Ctx& c)
 }
 void runCase(Ctx& c, long idx)
 {
+    if (c.prop == "C03" && idx == 0)
+        c03OutsideMainCase(c);
     if (c.prop == "C02")
         c02Run(c, idx);
     else
